@@ -88,6 +88,19 @@ elif [ $APPLY = 1 ]; then
   if [ $CHK = 1 ] && ! grep -q "^VIOLATION property=$PROP " /tmp/sv-check-$SLOT.log; then say "exit 1 WITHOUT a VIOLATION line: treated as tool error"; CHK=2; fi
   say "check exit: $CHK"
 fi
+# neighbouring checks named in meta.json "also_check": a change may break a clause another property owns
+ALSO=$(python3 -c "import json;print(' '.join(json.load(open('$SD/meta.json')).get('also_check',[])))")
+ALSO_HIT=""
+if [ $APPLY = 1 ] && [ "$SKIP" != "--suite-only" ] && [ "$CHK" != 1 ]; then
+  for Q in $ALSO; do
+    say "running ./check $Q --tier quick against HEAD+patch (also_check)"
+    /verif/tools/mutant_run.sh "$SLOT" "$SD/patch.diff" "$Q" --tier quick > /tmp/sv-check-$SLOT-$Q.log 2>&1; QC=$?
+    grep -E "^(VIOLATION|TOOL-ERROR|C[0-9]+:)" /tmp/sv-check-$SLOT-$Q.log | cut -c1-400 | head -6 >> "$LOG"
+    say "check $Q exit: $QC"
+    if [ $QC = 1 ] && grep -q "^VIOLATION property=$Q " /tmp/sv-check-$SLOT-$Q.log; then ALSO_HIT="$ALSO_HIT $Q"; fi
+  done
+fi
+export ALSO_HIT
 python3 - "$SD" "$HEAD_SHA" "$D0" "$APPLY" "$D1" "$SUITE" "$REGR" "$CHK" <<'PY'
 import json,sys
 sd,head,d0,app,d1,suite,regr,chk=sys.argv[1:]
@@ -95,6 +108,12 @@ v={"repo_head":head,"demo_exit_unchanged":int(d0),"patch_applies":app=="1","demo
    "suite":suite,"stable_baseline_regressions":json.loads(regr),"check_quick_exit":int(chk),
    "valid_seed": int(d0)==0 and app=="1" and int(d1)!=0 and (suite=="skipped" or json.loads(regr)==[]),
    "detected": int(chk)==1}
+import os
+hit=os.environ.get("ALSO_HIT","").split()
+prev={}
+try: prev=json.load(open(sd+"/verify.json"))
+except Exception: pass
+v["detected_by_other_checks"]= hit if hit else prev.get("detected_by_other_checks",[])
 json.dump(v,open(sd+"/verify.json","w"),indent=1)
 print(json.dumps(v))
 PY
